@@ -29,7 +29,7 @@ LEVEL = "model_checking"
 MANIFEST = dict(
     category="model_checking",
     text="TLC checks StatsFaithful, CountersExact, FanOutEqual, StandardCadence, OrbaxCadence (one checkpoint per record that passed >=1 multiple of the interval, none otherwise), OrbaxCoversMultiples, NamesDistinct on the complete bounded call graph of Logger.tla, and shows the implementation's wrap-around-or-gap test equivalent to the floor-crossing test (reachable states and the whole domain I<=12, steps<=60). Every transition of the generated graphs is replayed into MemoryLogger, StandardLogger, OrbaxCheckpointer, StdoutLogger and a LoggerList of all four, comparing get_stat (episode and step x-keys), counters, epoch counts, last_step, checkpoint_path (step/epoch parsed from the names, saved parameter digest) after every call; sampled behaviours write real orbax checkpoints that are restored and compared with the module version at save time. Call histories of a small stateful API are exactly what a state-graph enumeration decides.",
-    note="bounds: keys {a,b}, values 1-2, explicit steps 0-9, intervals 1-4, <=5 (quick) / <=7 (thorough) calls plus simulated behaviours of 30 calls; non-decreasing step sequences per key only; wall-clock fields excluded; AIMLogger not run (needs an Aim repository); trusted: TLC, the in-memory stand-in for orbax' StandardCheckpointer on the large graphs (real orbax on sampled behaviours), path-name parsing in this driver",
+    note="bounds: keys {a,b}, values 1-2, explicit steps 0-9, intervals 1-4 (redefinition allowed); cadence histories <=5 (quick) / <=7 (thorough) calls, statistics histories <=4 calls (<=5 with one value), replayed graphs <=4/5 calls plus simulated behaviours of 24/30 calls; non-decreasing step sequences per key only; wall-clock fields excluded; AIMLogger not run (needs an Aim repository); trusted: TLC, the in-memory stand-in for orbax' StandardCheckpointer on the large graphs (real orbax on sampled behaviours), path-name parsing in this driver",
     technique="TLA+ spec + TLC exhaustive bounded state graph and simulation; transition-coverage replay of TLC-generated transitions into the real logger classes; real orbax save/restore on sampled TLC behaviours",
 )
 
